@@ -60,13 +60,13 @@ enum Profile : int {
 
 enum Probe : int {
   pSJoinedWaitingGroup = 0, pUpgradeWaitedForS, pPrepFallbackS, pPrepNonOwning, pTryFailed, pTrySucceeded, pVerifyFailed,
-  pVerifyOk, pConflictWaited, pTwoGrants, pVersionWrap, pDowngradeAdmittedS, pSectionsDone, pSpuriousSeen, pNodeRecycled,
+  pVerifyOk, pConflictWaited, pTwoGrants, pVersionWrap, pDowngradeAdmittedS, pSectionsDone, pNodeRecycled,
   pFinalLockX, pProbes
 };
 const char *const kProbeNames[] = {"s_request_waited_in_queue", "upgrade_waited_for_shared_holder", "prepare_read_took_shared_fallback",
                                    "prepare_read_returned_version", "trylock_failed", "trylock_succeeded", "verify_failed", "verify_ok",
                                    "request_waited_for_conflicting_holder", "manipulator_held_two_grants", "version_wrapped",
-                                   "downgrade_admitted_shared", "sections_completed", "runs_with_cas_spurious", "mcs_node_recycled",
+                                   "downgrade_admitted_shared", "sections_completed", "mcs_node_recycled",
                                    "final_lockx_done", nullptr};
 
 constexpr int kTagMcs = 1;
